@@ -21,6 +21,12 @@ def run(tier, seed):
     if first: chk.stages['zmat'] = first
     cases = [dict(id=10 ** 6 + k, seed=rng.randrange(10 ** 9), spec=json.loads(json.dumps(sp)))
              for k, sp in enumerate(chk.notes.get('failing_specs', [])[:16])]
+    # a sweep step across the thin / thick wire limit (radius 1e-4 wavelengths) with segments of a few radii: everything derived
+    # from the frequency has to follow it
+    for k_, (f1, f2) in enumerate(((2.8, 3.0), (3.0, 2.8), (3.2, 2.9))):
+        cases.append(dict(id=2 * 10 ** 6 + k_, seed=rng.randrange(10 ** 9), spec=dict(
+            f=f2, pre_factor=f1 / f2, media=None, family='probe-sweep-thin-thick', tagmode='none', sources=[], loads=[], wires=[
+                gen.wire(12, [0.0, 0.0, 0.0], [0.0, 0.72, 0.0], 0.0102), gen.wire(11, [0.0, 0.72, 0.0], [0.5, 1.2, 0.1], 0.0102)])))
     for i in range(24 if (q and not chk.broken) else (64 if q else 1200)):
         g = rng.choice((None, None, 'ideal'))
         spec = gen.gen_topology(rng, ground=g, perturb=False) if rng.random() < 0.3 else gen.gen_antenna(rng, ground=g, family=('taperjoin' if rng.random() < 0.25 else None))
